@@ -29,8 +29,25 @@ theorem step_ended_cause (cfg : Cfg) (s : ObsState) (e : TEvent) (h : (step cfg 
         · cases hv : m.obs <;> simp
       · left; rfl
     | exception k => left; rfl
-    | obsCancel => simp [step, stepFirst] at h
+    | obsCancel =>
+      exfalso
+      revert h
+      simp only [step, stepFirst]
+      split <;> simp
     | respCancel => right; simp [step, stepFirst]
+  | cancelledFirst =>
+    right
+    cases ev with
+    | message m last =>
+      cases last
+      · right
+        cases hv : m.obs with
+        | none => simp [step, stepCancelledFirst, hv]
+        | some v => simp [step, stepCancelledFirst, hv] at h
+      · left; rfl
+    | exception k => left; rfl
+    | obsCancel => simp [step, stepCancelledFirst] at h
+    | respCancel => right; simp [step, stepCancelledFirst]
   | observing v1 t1 =>
     right
     cases ev with
